@@ -27,7 +27,7 @@ import zlib
 
 from sim import factory
 from sim import xtce_family as xf
-from sim.kernel import HarnessBug, LivenessViolation, Pipe, SimDeadlock, SimRaw, SimSocket, StepBudgetExceeded, World
+from sim.kernel import HarnessBug, library_exception, LivenessViolation, Pipe, SimDeadlock, SimRaw, SimSocket, StepBudgetExceeded, World
 from sim.procs import in_pristine_child
 from sim.runner import Outcome
 
@@ -80,7 +80,8 @@ EXPECTED_PROBES = ("gen_switch", "gen_close", "load_between_next", "direct_parse
                    "ambiguous_packet", "dead_sub_packet", "long_packet", "reporting_on", "reporting_off", "skip_bad",
                    "headers_only", "shared_definition_2plus", "socket_source", "file_source", "two_definitions",
                    "source_fault_eio", "source_fault_rst", "source_fault_stall_timeout", "direct_parse_same_raw_object", "segment_group",
-                   "unfinished_segment_group", "packet_inside_open_group")
+                   "unfinished_segment_group", "packet_inside_open_group", "duplicate_unit", "duplicate_unit_across_generators",
+                   "stuck_counter")
 # (probe warnings_differ_from_alone is expected to stay at 0 on the unchanged tree; it is informational)
 
 _packets = factory.import_library()
@@ -274,6 +275,27 @@ def run(ch, render=False):
                 if len(p) > 7:
                     p = relen(p, p[6:len(p) - 1 - (sub % max(1, len(p) - 7))])
             fallback = xf.encode_packet(doc, ["CCSDSPacket"], doc.unknown_apids[0], {}, 0, count=cnt)
+            # retransmissions and stuck counters: the very same unit again (adjacent or later, or one that another
+            # generator on the same definition carries too), or a different packet with the same APID and count
+            dup = ch.weighted([(12, None), (1, "prev"), (1, "earlier"), (1, "other_gen"), (1, "same_count")], "dup_unit")
+            if dup == "prev" and cands:
+                cat, p, base, fallback = cands[-1]
+                w.probe("duplicate_unit")
+            elif dup == "earlier" and cands:
+                cat, p, base, fallback = cands[ch.draw(len(cands), "dup_of")]
+                w.probe("duplicate_unit")
+            elif dup == "other_gen":
+                pool = [c_ for g_ in gens if g_["di"] == di for c_ in g_["cands"]]
+                if pool:
+                    cat, p, base, fallback = pool[ch.draw(len(pool), "dup_other")]
+                    w.probe("duplicate_unit_across_generators")
+            elif dup == "same_count" and cands and isinstance(p, bytes) and isinstance(cands[-1][1], bytes):
+                prev_p = cands[-1][1]
+                if prev_p[:2] == p[:2]:
+                    p = p[:2] + prev_p[2:4] + p[4:]            # same APID, same flags and count, different content
+                    if base is not None:
+                        base = base[:2] + prev_p[2:4] + base[4:]
+                    w.probe("stuck_counter")
             cands.append((cat, p, base, fallback))
         srckind = ch.weighted([(4, "bytes"), (3, "file"), (3, "socket")], "src")
         # source faults: ONE generator's disk or link fails mid-stream; the others must not notice
@@ -338,10 +360,14 @@ def run(ch, render=False):
         return allexp
     exp_fwd = in_pristine_child(lambda: expectations(oracle_a, False))
     exp_rev = in_pristine_child(lambda: expectations(oracle_b, True))
+    def items_of(e_):
+        return ("RAISES",) if e_[0] == "RAISES" else e_[0]          # items only: warnings and error texts are not the statement's
     for g, exp, exr in zip(gens, exp_fwd, exp_rev):
         g["exp"] = exp
-        if exp != exr and out.violation is None:
-            j = next(i for i in range(len(exp)) if exp[i] != exr[i])
+        if [e_[0] != "RAISES" and e_[1] for e_ in exp] != [e_[0] != "RAISES" and e_[1] for e_ in exr]:
+            w.probe("warnings_differ_from_alone")
+        if [items_of(e_) for e_ in exp] != [items_of(e_) for e_ in exr] and out.violation is None:
+            j = next(i for i in range(len(exp)) if items_of(exp[i]) != items_of(exr[i]))
             out.fail("alone_parse_depends_on_history",
                      f"parsing packet {j} of a stream alone on a fresh generator gives different results depending on which "
                      f"other packets were parsed before in the same process (category {g['cats'][j]}, options {g['opts']})")
@@ -354,6 +380,8 @@ def run(ch, render=False):
 
     # ---- sources and generator objects --------------------------------------------------------------
     socks = []
+    creation_err = None
+    die_after = None
     for gi, g in enumerate(gens):
         stream = b"".join(unit_stream(u, g["k"]) for u in g["pkts"])
         if g["src"] == "bytes":
@@ -389,14 +417,21 @@ def run(ch, render=False):
                 source.settimeout(2.0)
             g["sock"] = source
             socks.append(source)
-        g["gen"] = defs[g["di"]].packet_generator(source, skip_header_bytes=g["k"], buffer_read_size_bytes=g["rs"], **g["opts"])
         g["items"], g["warns"], g["state"], g["objs"] = [], [], "live", []
+        g["stream_len"] = len(stream)
+        g["die_after"] = die_after if g["src"] == "socket" else None
+        try:
+            g["gen"] = defs[g["di"]].packet_generator(source, skip_header_bytes=g["k"], buffer_read_size_bytes=g["rs"], **g["opts"])
+        except Exception as e:      # noqa: BLE001 -- a library whose set-up runs eagerly may raise at creation already
+            library_exception(e)
+            g["gen"] = iter(())
+            creation_err = creation_err or ("exception", f"{type(e).__name__}: {e} when the generator was created", gi)
 
     # ---- the schedule -------------------------------------------------------------------------------
     steps = 0
     last_g = None
     switches = 0
-    err = None
+    err = creation_err
     try:
         with warnings.catch_warnings():
             warnings.simplefilter("always")
@@ -444,7 +479,11 @@ def run(ch, render=False):
                         # packet -- the SAME object every time, so a second parse of it must give the same result
                         if ch.chance(1, 2, "dp_rawobj"):
                             if g["raws"] is None:
-                                g["raws"] = dict(zip(singles, _packets.ccsds_generator(b"".join(g["pkts"][i_] for i_ in singles))))
+                                try:
+                                    g["raws"] = dict(zip(singles, _packets.ccsds_generator(b"".join(g["pkts"][i_] for i_ in singles))))
+                                except Exception as e:      # noqa: BLE001
+                                    library_exception(e)
+                                    g["raws"] = {}
                             raw_in = g["raws"].get(pi, g["pkts"][pi])
                             w.probe("direct_parse_same_raw_object")
                         else:
@@ -455,6 +494,7 @@ def run(ch, render=False):
                         except UnrecognizedPacketTypeError as e:
                             res = xf.canon_item(e)
                         except Exception as e:      # noqa: BLE001 -- this packet parsed alone without raising
+                            library_exception(e)
                             err = ("exception", f"direct parse_ccsds_packet of a packet that parses alone raised "
                                                 f"{type(e).__name__}: {e}", gi)
                         exp_one = g["alone_default"][pi]
@@ -478,6 +518,7 @@ def run(ch, render=False):
                     except (LivenessViolation, SimDeadlock, StepBudgetExceeded) as e:
                         err = (type(e).__name__, str(e), gi)
                     except Exception as e:      # noqa: BLE001
+                        library_exception(e)
                         inj = None
                         if g.get("sock") is not None and g["sock"].raised is not None:
                             inj = g["sock"].raised
@@ -523,9 +564,14 @@ def run(ch, render=False):
                 exp_warns += list(e[1])
                 upto += [len(exp_warns)] * len(e[0])
             got = g["items"]
-            if g["state"] == "done":
+            faulted = g["inject"] != "none" and (
+                (g.get("sock") is not None and (g["sock"].raised is not None or g["inject"] in ("rst", "stall_timeout")))
+                or (g.get("raw") is not None and g["raw"].raised is not None))
+            if g["state"] == "done" and not faulted:
                 ok_items = got == exp_items
             else:
+                # abandoned, failed with the injected error, or ended gracefully although its own source had failed / was cut:
+                # what it yielded must be a prefix of the alone results (the statement says nothing about I/O errors)
                 ok_items = got == exp_items[:len(got)]
             if not ok_items:
                 j = 0
@@ -537,9 +583,9 @@ def run(ch, render=False):
                          f"{describe(gi)}: item {j} is {str(gj)[:300]} but parsing that packet alone gives {str(ej)[:300]} "
                          f"({len(got)} items observed, {len(exp_items)} expected, generator {g['state']})")
                 break
-            if g["state"] == "done":
+            if g["state"] == "done" and not faulted:
                 ok_w = g["warns"] == exp_warns
-            elif g["state"] == "failed":
+            elif g["state"] == "failed" or faulted:
                 # the failing step may have handled (and warned about) skipped packets before the error surfaced
                 lo = upto[len(got) - 1] if got else 0
                 ok_w = len(g["warns"]) >= lo and g["warns"] == exp_warns[:len(g["warns"])]
@@ -554,7 +600,7 @@ def run(ch, render=False):
                 # is recorded as a probe and never as a violation
                 w.probe("warnings_differ_from_alone")
             # by construction
-            if g["state"] == "done" and not g["opts"].get("ccsds_headers_only"):
+            if g["state"] == "done" and not faulted and not g["opts"].get("ccsds_headers_only"):
                 doc = docs[g["di"]]
                 pos = 0
                 for pi, (p, cat) in enumerate(zip(g["pkts"], g["cats"])):
